@@ -1,4 +1,8 @@
 """C01 — exactly the matching, in-scope, unsuppressed rules fire once per event."""
+import importlib.util
+import os
+import subprocess
+
 import checklib
 
 
@@ -50,6 +54,40 @@ def decode(p):
         return p
 
 
+def _conc():
+    sp = importlib.util.spec_from_file_location("props_conc", os.path.join(checklib.VERIF, "props", "_conc.py"))
+    m = importlib.util.module_from_spec(sp)
+    sp.loader.exec_module(m)
+    return m
+
+
+def extract(ctx):
+    """regenerate lean/Ecal/Gen/C01Facts.lean (how IsTriggering keys its cache) from the tree under test"""
+    _conc().extract(ctx, "C01", "C01Facts.lean")
+
+
+def stress(ctx):
+    """the trigger cache written while read: plain build in the quick tier, -race build in the thorough tier"""
+    race = ctx.tier == "thorough"
+    binp = checklib.go_build(ctx, out="harness-race", race=True) if race else ctx.harness
+    args = ["16", "5000"] if race else ["16", "20000"]
+    try:
+        p = subprocess.run([binp, "C01", "-tool", "stress"] + args, cwd=ctx.work, env=dict(checklib.GOENV, VERIF_REPO=checklib.REPO),
+                           stdout=subprocess.PIPE, stderr=subprocess.STDOUT, text=True, errors="replace", timeout=600)
+        rc, out = p.returncode, p.stdout
+    except subprocess.TimeoutExpired:
+        rc, out = -9, "stress run exceeded 600 s"
+    ctx.coverage["stress"] = {"race_build": race, "goroutines_x_kinds": "x".join(args), "rc": rc,
+                              "summary": [l for l in out.splitlines() if l.startswith("STRESS")][-1:]}
+    if rc != 0 or "DATA RACE" in out or "fatal error" in out:
+        rp = checklib.write_replay(ctx, "stress", {"command": "harness C01 -tool stress " + " ".join(args), "race_build": race},
+                                   "STRESS-OK (no data race, no skipped event, right pre-check answers)", out[-1500:],
+                                   "go build" + (" -race" if race else "") + " -tags verif ./cmd/harness && harness C01 -tool stress " + " ".join(args))
+        checklib.violation(ctx, rp, "trigger cache under concurrent AddEvent / IsTriggering: " + " ".join(out.split())[-200:])
+        return 1
+    return 0
+
+
 STRATA = ["kind", "state", "scope", "suppression", "dedupe", "spill", "cachehit", "ruleafter", "failstop", "fires", "child"]
 
 
@@ -95,6 +133,10 @@ SPEC = dict(
                 "x every event of depth <=2 over {a,b} x 9 states; rule pairs / triples over reduced universes with suppression, "
                 "scopes, priorities; every 2-event history over 8 kinds sharing / not sharing the event name"),
     trusted_base=[
+        "value equality: the classes are assigned by the harness with its own structural comparison (c01Equal: element by element, nil and empty "
+        "lists/maps alike — the property's reading; c01EqualAsIs additionally separates nil from empty, the code's reading, known finding empty-list-not-equal) over a fixed universe of values; a kind of value outside that universe (pointer, func, struct) is not covered",
+        "the cache key: a regenerated three-valued fact (Gen.C01.cacheKey, theorem cacheKey_not_refuted) reads the key expression of IsTriggering; "
+        "'established' rests on the claim that fmt's %q rendering of a []string is injective (not proved, sampled by the corpus-cache-key family)",
         "regular expressions are ids in the model; the truth table for the (regex, value) pairs of a case is computed by Go's regexp on fmt.Sprint(value)",
         "values are equality classes (Go == for hashable values, reflect.DeepEqual for lists/maps), assigned by the harness",
         "fmt.Sprintf(\"%q\", kind) is injective in the kind (the model keys the trigger cache by the kind itself); tested with segments containing quotes and blanks",
@@ -111,10 +153,16 @@ SPEC = dict(
         "processes an event that runs nothing, and the next AddRule drops the cache anyway) — a mutant removing it is not caught and cannot be; "
         "likewise a cached 'triggering' for an event that fires nothing (the property leaves the pre-check free there)",
         "not reached on purpose: getters eventProcessor.ID, UnitTestResetIDs (no clause depends on them); ECAL function values as statematch values",
+        "event and rule objects: Rule.Action non-nil (a nil Action is a nil call in a worker = process death); rule and event values are not mutated "
+        "after AddRule / AddEvent by the caller (at ECAL level a list/map statematch value is stored by reference: known finding statematch-values-aliased; "
+        "an event state map is shared with the worker); AddRule / Reset only on a stopped processor (the harness finishes it first; Go refuses otherwise)",
+        "concurrency: the theorems are about sequential semantics; workers 1..16 and AddEvent from many goroutines are exercised by the tie, the trigger "
+        "cache by a stress run (16 goroutines x fresh kinds; -race build in the thorough tier)",
         "theorems: events are processed one at a time (AddEvent = pre-check + ProcessEvent atomically); concurrency of workers is only exercised by the tie",
     ],
     decode=decode,
     post=post,
+    extract=extract,
 )
 
 META = dict(
@@ -126,7 +174,7 @@ META = dict(
                 "(match_eq_spec, bitmask_faithful, stateMatch_perm); ProcessEvent determines a duplicate-free list whose name set is exactly "
                 "Spec.fires and calls the actions of all of it when failOnFirstError is off or no action fails, else of the prefix up to and "
                 "including the first failing rule (processEvent_runs; the flag is ON in every ECAL runtime, interpreter/provider.go); "
-                "IsTriggering over-approximates Match and depends on the kind only, the cache is dropped by AddRule/Reset, hence a firing "
+                "IsTriggering over-approximates Match, the cache (keyed injectively by the kind: regenerated fact cacheKey_not_refuted) is dropped by AddRule/Reset, hence a firing "
                 "event is never skipped after any history (cache_sound_ops, fired_event_not_skipped_ops); the scope trie answers with the flag "
                 "of the longest defined prefix (processEvent_exact_scope). Spec.fires ranges over the rules AddRule accepted "
                 "(indexed_characterised: a rule with kind and scope match whose name no earlier accepted rule has; a refused rule does not block its name since b2c3167). Hypotheses: Rule.WF (kind "
@@ -135,9 +183,35 @@ META = dict(
                 "into the model, not extracted."),
     level_note=("Trusted: Lean kernel + propext/Classical.choice/Quot.sound; the correspondence harness; Go's regexp (truth table); "
                 "value equality classes computed by the harness. Readings: a self-suppressing rule never runs (spec follows the code, "
-                "property text says 'another'); known finding statematch-nonstring-key (see known_findings.txt)."),
+                "property text says 'another'); known findings statematch-nonstring-key, scope-lost-in-nested-instance-state, empty-list-not-equal, statematch-values-aliased (see known_findings.txt)."),
 )
 
 
 def run(ctx):
-    return checklib.standard(ctx, SPEC)
+    # a case may admit several outcomes that keep the property (spec=, spec2=, …): the framework knows one
+    # `spec` per case, so the alternative the real code produced (if any) is put there
+    go = {}
+    orig_cases, orig_driver = checklib.run_cases, checklib.run_driver
+
+    def run_cases(*a, **k):
+        res = orig_cases(*a, **k)
+        go.update(res[1])
+        return res
+
+    def run_driver(*a, **k):
+        out = orig_driver(*a, **k)
+        for i, (_, attrs) in out.items():
+            alts = [v for key, v in attrs.items() if key.startswith("spec")]
+            if len(alts) > 1 and go.get(i) in alts:
+                attrs["spec"] = go[i]
+        return out
+
+    checklib.run_cases, checklib.run_driver = run_cases, run_driver
+    try:
+        rc = checklib.standard(ctx, SPEC)
+    finally:
+        checklib.run_cases, checklib.run_driver = orig_cases, orig_driver
+    if stress(ctx):
+        rc = 1
+    checklib.write_evidence(ctx)
+    return rc
